@@ -62,7 +62,9 @@ def model_line(cs, unp, out):
 SENTINEL = "SENTINEL: previous content of the output file\n"
 
 
-def run_cli(case, prog, preexisting, o_first):
+def run_cli(case, prog, preexisting, o_first, inplace=None):
+    """inplace: the output file IS the input file, named the same way / as ./in.py / by its absolute path / through a symlink
+    (the text written must still be the conversion of what the file contained)"""
     cs, unp, out = case
     d = tempfile.mkdtemp(prefix="olcli_")
     try:
@@ -76,14 +78,22 @@ def run_cli(case, prog, preexisting, o_first):
         argv = [common.PY, "-W", "ignore", "-m", "oneliner"]
         # the output file is named the way users name it: half of the runs by a bare file name relative to the working directory
         oargs = ["-o", "out.py" if (len(cs) + preexisting + o_first) % 2 else outp] if out else []
+        if out and inplace:
+            if os.path.exists(outp):
+                os.remove(outp)
+            if inplace == "symlink":
+                os.symlink(inp, os.path.join(d, "link.py"))
+            oargs = ["-o", {"same": inp, "dot": "./in.py", "bare": "in.py", "symlink": "link.py"}[inplace]]
+            outp = inp
         cargs = []
         for c in cs:
             cargs += ["-C", c] if c != "" else ["-C", ""]
         uargs = ["--unparser", unp] if unp else []
         argv += (oargs + cargs if o_first else cargs + oargs) + uargs + [inp]
+        untouched = prog if (out and inplace) else (SENTINEL if preexisting else None)
         p = subprocess.run(argv, capture_output=True, text=True, env=common.child_env(), timeout=120, cwd=d)
         content = open(outp).read() if os.path.exists(outp) else None
-        return {"rc": p.returncode, "stdout": p.stdout, "stderr": p.stderr[-300:], "out": content}
+        return {"rc": p.returncode, "stdout": p.stdout, "stderr": p.stderr[-300:], "out": content, "untouched": untouched}
     finally:
         shutil.rmtree(d, ignore_errors=True)
 
@@ -100,7 +110,12 @@ def run(chk, build, replay=None):
     answers = common.model_eval([model_line(*c) for c in cs])
     jobs = []
     for i, c in enumerate(cs):
-        jobs.append((c, PROGRAMS[i % len(PROGRAMS)], i % 3 != 0, i % 2 == 0))
+        jobs.append((c, PROGRAMS[i % len(PROGRAMS)], i % 3 != 0, i % 2 == 0, None))
+    # converting a file in place: -o names the input file itself (same spelling, another spelling, a symlink)
+    without = [c for c in cs if c[2]]
+    for i, c in enumerate(without[: (12 if chk.tier == "quick" else 120)]):
+        jobs.append((c, PROGRAMS[i % len(PROGRAMS)], False, i % 2 == 0, ("same", "dot", "bare", "symlink")[i % 4]))
+    answers = answers + common.model_eval([model_line(*j[0]) for j in jobs[len(cs):]])
     with ThreadPoolExecutor(common.NCPU) as ex:
         results = list(ex.map(lambda j: run_cli(*j), jobs))
     ref = {}
@@ -112,20 +127,20 @@ def run(chk, build, replay=None):
         return ref[key]
 
     kinds = {"ok": 0, "TypeError": 0, "ValueError": 0}
-    for (case, prog, pre, ofirst), ans, r in zip(jobs, answers, results):
-        chk.note_case((case, prog, pre, ofirst))
+    for (case, prog, pre, ofirst, inplace), ans, r in zip(jobs, answers, results):
+        chk.note_case((case, prog, pre, ofirst, inplace))
         x = sexp.read(ans)
         if x[0] != "ok":
             chk.add_broken("model", "Cli model could not evaluate a case", ans[:200])
             continue
         verdict, effects = x[1][0], x[1][1]
         kinds[verdict] = kinds.get(verdict, 0) + 1
-        info = dict(args=case[0], unparser_flag=case[1], with_output=case[2], preexisting_output=pre, o_first=ofirst, program=prog,
+        info = dict(args=case[0], unparser_flag=case[1], with_output=case[2], preexisting_output=pre, o_first=ofirst, output_is_input=inplace, program=prog,
                     observed={k: (v[:300] if isinstance(v, str) else v) for k, v in r.items()}, model=ans[:300])
         if verdict != "ok":
             if r["rc"] == 0:
                 chk.add_violation("a malformed/unknown/illegal -C argument was accepted", **info)
-            elif case[2] and r["out"] != (SENTINEL if pre else None):
+            elif case[2] and r["out"] != r["untouched"]:
                 chk.add_violation("a rejected command line created or modified the output file", **info)
             elif verdict not in r["stderr"]:
                 chk.add_broken("correspondence", f"CLI model predicts {verdict}, the real command line fails differently", str(info)[:1500])
